@@ -14,8 +14,18 @@ from .values import (CoroV, IterV, SV, Args, BoolTermV, BoundV, BuiltinV, ClassV
                      SeqTermV, St, SuperV, TupleV, Unsupported, V)
 
 
+import os as _os
+COVER_LINES = {int(x) for x in _os.environ.get('PYVC_COVER_LINES', '').split(',') if x}
+
+
+TRACE_LINES = {int(x) for x in _os.environ.get('PYVC_TRACE_LINES', '').split(',') if x}
+
+
 class StmtMixin:
     def ex_block(self, st: St, stmts: List[ast.stmt]) -> List[Out]:
+        self.stats['blocks'] = self.stats.get('blocks', 0) + 1
+        if self.stats['blocks'] > self.config.get('max_blocks', 20000):
+            raise Unsupported('path explosion: more than %d blocks executed in one unit' % self.config.get('max_blocks', 20000))
         outs = [Out('ok', st)]
         for s in stmts:
             nxt = []
@@ -30,6 +40,10 @@ class StmtMixin:
         return outs
 
     def ex_stmt(self, st: St, s: ast.stmt) -> List[Out]:
+        if TRACE_LINES and getattr(s, 'lineno', None) in TRACE_LINES:
+            print(f'TRACE line {s.lineno} depth {st.depth} feasible={self.feasible(st)} pc={len(st.pc)}: {ast.unparse(s)[:70]}')
+        if COVER_LINES and getattr(s, 'lineno', None) in COVER_LINES and st.depth <= 1:
+            self.add_obligation('cover', st, TRUE, f'cover_line{s.lineno}', s, detail=ast.unparse(s)[:80])
         m = getattr(self, 'ex_' + type(s).__name__, None)
         if m is None:
             raise Unsupported(f'statement {type(s).__name__}', s)
@@ -283,9 +297,13 @@ class StmtMixin:
                     continue
                 t, f = self.fork(s2, truth)
                 if t is not None:
-                    ts.append(self.narrow(t, test, True))
+                    t = self.narrow(t, test, True)
+                    t.notes = t.notes + [f'L{getattr(test, "lineno", "?")}+']
+                    ts.append(t)
                 if f is not None:
-                    fs.append(self.narrow(f, test, False))
+                    f = self.narrow(f, test, False)
+                    f.notes = f.notes + [f'L{getattr(test, "lineno", "?")}-']
+                    fs.append(f)
         return ts, fs, other
 
     def narrow(self, st: St, test, positive: bool):
@@ -491,9 +509,13 @@ class StmtMixin:
         inv = self.find_loop_spec(fi, s)
         # concrete iteration: tuples of known length
         if isinstance(it, TupleV):
+            if inv is not None:
+                return self.for_concrete_inv(st, it.items, s, inv)
             return self.unroll(st, it.items, s)
         if isinstance(it, IterV):
             if it.kind == 'concrete':
+                if inv is not None:
+                    return self.for_concrete_inv(st, it.items, s, inv)
                 return self.unroll(st, it.items, s)
             if inv is None:
                 raise Unsupported(f'loop #{self.loop_ordinal(s)} in {fi.qualname} over symbolic collection needs a loop invariant', s)
